@@ -157,3 +157,55 @@ func TestConnectSendDisconnectShutdown(t *testing.T) {
 		wg.Wait()
 	}
 }
+
+// An outgoing connection to a default peer while the daemon's query for the default-peer limit, a disconnect and the shutdown run.
+func TestConnectDefaultPeerQueryDisconnectShutdown(t *testing.T) {
+	for i := 0; i < *iterations; i++ {
+		r := rand.New(rand.NewSource(int64(i)))
+		ln, err := net.Listen("tcp", "127.0.0.1:0")
+		if err != nil {
+			t.Fatal(err)
+		}
+		remote := ln.Addr().String()
+		go func() {
+			for {
+				c, err := ln.Accept()
+				if err != nil {
+					return
+				}
+				go func() { _, _ = io.Copy(io.Discard, c); c.Close() }()
+			}
+		}()
+		cfg := gnet.NewConfig()
+		cfg.Address = "127.0.0.1"
+		cfg.Port = 0
+		cfg.ConnectionWriteQueueSize = 2
+		cfg.DefaultConnections = []string{remote}
+		st := &state{}
+		p, err := gnet.NewConnectionPool(cfg, st)
+		if err != nil {
+			t.Fatal(err)
+		}
+		st.pool = p
+		e := &env{pool: p, st: st}
+		e.start()
+		e.waitListening(t)
+		d := delays(r, 4)
+		var wg sync.WaitGroup
+		wg.Add(3)
+		go func() { defer wg.Done(); time.Sleep(d[0]); _ = e.pool.Connect(remote) }()
+		go func() {
+			defer wg.Done()
+			time.Sleep(d[1])
+			for k := 0; k < 3; k++ {
+				e.pool.IsMaxOutgoingDefaultConnectionsReached()
+				time.Sleep(50 * time.Microsecond)
+			}
+		}()
+		go func() { defer wg.Done(); time.Sleep(d[2]); _ = e.pool.Disconnect(remote, errors.New("x")) }()
+		wg.Wait()
+		time.Sleep(d[3])
+		shutdownWithin(t, e, fmt.Sprintf("iteration %d", i))
+		ln.Close()
+	}
+}
